@@ -28,6 +28,11 @@ type Machine struct {
 	// Executed records the functions that were entered.
 	Executed map[*ir.Function]int
 
+	// Unspecified is set (and left for the caller to reset) when an execution
+	// reached a state in which the language does not define what the compiled
+	// program does, so that its record cannot be compared.
+	Unspecified string
+
 	globals map[*ir.Global]*Value
 	steps   int64
 	depth   int
@@ -328,8 +333,20 @@ func (fr *frame) run() {
 		}
 		fr.panicking = true
 		fr.panicVal = tp.v
+		raisedIn := fr.block
 		fr.runDefers()
 		// recovered
+		if raisedIn != nil && len(raisedIn.Instrs) > 0 {
+			if _, ret := raisedIn.Instrs[len(raisedIn.Instrs)-1].(*ir.Return); ret {
+				if rs := fr.fn.Signature.Results(); rs.Len() > 0 && rs.At(0).Name() == "" {
+					// The panic was raised while a block that ends in a return was executing, i.e.
+					// (also) while the operands of a return statement were evaluated. What the
+					// unnamed results of the compiled program hold then is not defined by the
+					// language (gc writes array and struct results in place, element by element).
+					fr.m.Unspecified = "recovered panic while the operands of a return statement with unnamed results were evaluated"
+				}
+			}
+		}
 		fr.prevBlock = nil
 		fr.block = fr.fn.Recover
 		if fr.block == nil {
